@@ -196,6 +196,17 @@ OPTION_PRESETS = [
 E2E_KINDS = ["item", "assoc_item", "stmt", "field", "variant", "arm", "param", "arg", "expr_field"]
 
 
+INSIDE_FORMS = [
+    "let v = a + b * c;", "let w = x as u64 as usize;", "let r = &mut value;", "let d = *pointer;", "let n = -number;", "let q = first.second(third).fourth;",
+    "let s = Struct { a: 1, b: two };", "let c = |x, y| x + y;", "let m = match k { A => 1, B => 2 };", "let i = if cond { 1 } else { 2 };",
+    "const IN_FN: usize = 4 * 1024;", "static IN_FN_S: u8 = 7;", "call(first, second);", "x = y;", "x += 1;", "return value;", "let t: (u8, u16) = (1, 2);",
+    "let arr = [1, 2, 3];", "let rng = 0..10;", "let idx = arr[0];", "let tr = value?;", "let fut = thing.await;", "let (a, b) = pair;", "let Some(z) = opt else { return };",
+    "println!(\"{}\", a + b);", "assert_eq!(x as u8, &y);", "let v = vec![a + b, c];", "let u = unsafe { f() };", "for i in 0..n { g(i); }", "while a < b { a += 1; }",
+    "let l = 'lbl: loop { break 'lbl 1; };", "let cl = move || { h() };", "let g = f::<u8>(1);", "let p = <T as Tr>::f();", "if a && b || c { d(); }", "let e = !flag;",
+    "write!(out, \"{}\", x.y as u8)?;", "let k = m!(a - b, &c, d as u8);", "debug_assert!(p == q && r != s, \"msg {}\", t);", "type Local = Vec<u8>;", "use inner::{a, b};",
+]
+
+
 def e2e(rep, tier, seed):
     import hashlib
     import random
@@ -336,6 +347,31 @@ def e2e(rep, tier, seed):
                 mark = "SYN%dQ" % si
                 cases.append({"text": tmpl % (lit, cm % mark), "config": [], "again": False, "lex": False})
                 meta.append(("synth/%d" % si, "expr", "net_only", mark))
+    # anywhere inside a statement of a function body, systematically: a block comment at EVERY token boundary of each statement form
+    ftexts = ["fn wrapper() {\n    %s\n}\n" % f for f in INSIDE_FORMS]
+    flex = common.run_vh_pool("lex", [{"text": t} for t in ftexts], per_case_timeout=20)
+    for fi, (t, toks) in enumerate(zip(ftexts, flex)):
+        if not isinstance(toks, list):
+            continue
+        b = t.encode("utf-8")
+        offs, o = [], 0
+        for k, tt in toks:
+            offs.append((o, k, tt))
+            o += len(tt.encode("utf-8"))
+        lo, hi = t.index("{") + 1, t.rindex("}")
+        sg = [(off, k, tt) for off, k, tt in offs if lo < off < hi and k not in ("ws", "lc", "bc")]
+        for bi in range(1, len(sg)):
+            off, prev, cur = sg[bi][0], sg[bi - 1][2], sg[bi][2]
+            if prev in ("!", "$", "#", "'") or (prev == ":" and cur == ":") or (prev in "=<>-+|&." and cur in "=<>|&."):
+                continue          # inside a compound operator / a macro or attribute head
+            widths = ["100", "40"] if tier != "thorough" else ["100", "60", "40", "25"]
+            for w in widths:
+                if tier != "thorough" and (fi + bi + seed + int(w)) % 2:
+                    continue
+                mark = "FRM%d_%dQ" % (fi, bi)
+                text = (b[:off] + ("/* %s */ " % mark).encode() + b[off:]).decode("utf-8")
+                cases.append({"text": text, "config": [["max_width", w]], "again": False, "lex": False})
+                meta.append(("form/%d.%d" % (fi, bi), "stmt", "inside_form" if cur != "!" else "inside_form_macro_head", mark))
     res = common.run_vh_pool("pool", cases, per_case_timeout=15)
     found = n = 0
     per = {}
@@ -347,6 +383,10 @@ def e2e(rep, tier, seed):
         cnt = r["out"].count(mark)
         if cnt != 1:
             key = "comment_%s:%s:%s:%s" % ("lost" if cnt == 0 else "duplicated", kind, style, pid)
+            if style == "inside_form_macro_head":
+                key = "comment_lost:macro_call_head"
+            elif style == "inside_form":
+                key = "comment_%s:inside_form:%s" % ("lost" if cnt == 0 else "duplicated", pid.split("/", 1)[1])
             if kind == "import":
                 cd = dict(c["config"])
                 empty = "::{}" in c["text"]
@@ -357,7 +397,7 @@ def e2e(rep, tier, seed):
                 found += 1
     rep.coverage["e2e_injections_judged"] = n
     rep.coverage["e2e_per_position"] = {"%s/%s" % k: v for k, v in sorted(per.items())}
-    rep.coverage["e2e_rule"] = "pool source programs (thorough: all; quick: the 1/%d selected by the seed) x up to 2 elements of each kind %s x {block comment before, line comment on its own line before, line comment / block comment at the end of the element's line} under the program's configuration and, rotating, style_edition 2024, another max_width (30 / 50 / 70 / 140) or one of 20 layout-option presets (fn_single_line, group_imports, brace styles, heuristics, Visual indent, comment options ...); 17 one-statement bodies / empty items x line and block comment x 10 single-line option sets (fn_single_line, match_arm_blocks, single-line if/else and let-else, struct_lit_single_line, empty_item_single_line, where_single_line); 40 generated import runs (empty lists included) with comments before / after their declarations under group_imports x imports_granularity x reorder_imports: the marker comment must appear exactly once in the output of every accepted run; a block comment at a random token boundary inside up to 6 statements per program (anywhere inside a statement of a function body); plus 66 synthetic expressions with a comment only the safety net can keep, after char / byte / string / raw-string literals containing quotes and comment openers" % (MOD, E2E_KINDS)
+    rep.coverage["e2e_rule"] = "pool source programs (thorough: all; quick: the 1/%d selected by the seed) x up to 2 elements of each kind %s x {block comment before, line comment on its own line before, line comment / block comment at the end of the element's line} under the program's configuration and, rotating, style_edition 2024, another max_width (30 / 50 / 70 / 140) or one of 20 layout-option presets (fn_single_line, group_imports, brace styles, heuristics, Visual indent, comment options ...); 17 one-statement bodies / empty items x line and block comment x 10 single-line option sets (fn_single_line, match_arm_blocks, single-line if/else and let-else, struct_lit_single_line, empty_item_single_line, where_single_line); 40 generated import runs (empty lists included) with comments before / after their declarations under group_imports x imports_granularity x reorder_imports: the marker comment must appear exactly once in the output of every accepted run; a block comment at a random token boundary inside up to 6 statements per program (anywhere inside a statement of a function body), and systematically at EVERY token boundary of 41 statement forms (let / assignment / control flow / item statements / macro-call statements whose arguments parse as expressions) at two widths; plus 66 synthetic expressions with a comment only the safety net can keep, after char / byte / string / raw-string literals containing quotes and comment openers" % (MOD, E2E_KINDS)
     return found
 
 
